@@ -21,9 +21,15 @@ func writeJSONError(w http.ResponseWriter, err error) error {
 }
 
 func writeJSONErrorWithStatus(w http.ResponseWriter, status int, err error) error {
+	// The message is arbitrary text (`no node exists with id "Node-7"`), so it
+	// has to be escaped: pasted between quotes it made the body invalid JSON.
+	message, marshalErr := json.Marshal(err.Error())
+	if marshalErr != nil {
+		message = []byte(`"unable to serialize error"`)
+	}
 	w.Header().Set("Content-Type", string(JsonContentType))
 	w.WriteHeader(status)
-	_, err = w.Write([]byte(fmt.Sprintf(`{"error": "%s"}`, err.Error())))
+	_, err = w.Write([]byte(fmt.Sprintf(`{"error": %s}`, message)))
 	return err
 }
 
